@@ -2794,7 +2794,7 @@ func (d *decoderSimpleBytes) decodeBytesInto(out []byte, mustFit bool) (v []byte
 func (d *decoderSimpleBytes) rawBytes() (v []byte) {
 
 	v = d.d.nextValueBytes()
-	if d.bytes && !d.h.ZeroCopy {
+	if !(d.bytes && d.h.ZeroCopy) {
 		vv := make([]byte, len(v))
 		copy(vv, v)
 		v = vv
@@ -6572,7 +6572,7 @@ func (d *decoderSimpleIO) decodeBytesInto(out []byte, mustFit bool) (v []byte, s
 func (d *decoderSimpleIO) rawBytes() (v []byte) {
 
 	v = d.d.nextValueBytes()
-	if d.bytes && !d.h.ZeroCopy {
+	if !(d.bytes && d.h.ZeroCopy) {
 		vv := make([]byte, len(v))
 		copy(vv, v)
 		v = vv
